@@ -34,15 +34,16 @@ Definition spec_header_compressed (clen ulen : Z) (sc : bool) : Z := clen + 2 ^ 
 Definition spec_crc24_init : Z := 8867936.          (* 0x875060 *)
 Definition spec_crc24_poly : Z := 26693387.         (* 0x1974F0B, x^24 term included *)
 
-Definition spec_crc24_bit (reg : Z) (inbit : bool) : Z :=
-  let top := xorb (Z.odd (reg / 2 ^ 23)) inbit in
-  let reg' := (2 * reg) mod 2 ^ 24 in
-  if top then Z.lxor reg' (spec_crc24_poly mod 2 ^ 24) else reg'.
+(* register as a natural number below 2^24; "top" is bit 23; doubling drops it *)
+Definition spec_crc24_bit (reg : N) (inbit : bool) : N :=
+  let top := xorb (N.odd (reg / 2 ^ 23)) inbit in
+  let reg' := ((2 * reg) mod 2 ^ 24)%N in
+  if top then N.lxor reg' (Z.to_N spec_crc24_poly mod 2 ^ 24) else reg'.
 
-Definition spec_crc24_byte (reg : Z) (b : Z) : Z :=
+Definition spec_crc24_byte (reg : N) (b : Z) : N :=
   fold_left (fun r i => spec_crc24_bit r (Z.odd (b / 2 ^ i))) [7; 6; 5; 4; 3; 2; 1; 0] reg.
 
-Definition spec_crc24 (bytes : list Z) : Z := fold_left spec_crc24_byte bytes spec_crc24_init.
+Definition spec_crc24 (bytes : list Z) : Z := Z.of_N (fold_left spec_crc24_byte bytes (Z.to_N spec_crc24_init)).
 
 (* ---- CRC-32 over seed || payload, textbook reflected bit-at-a-time form *)
 Definition spec_crc32_seed : list Z := [250; 45; 85; 202].      (* FA 2D 55 CA *)
